@@ -2,4 +2,22 @@ import UnytModel.Driver
 import UnytModel.Ops.C12
 open Unyt
 
-def main : IO Unit := runDriver (baseHandlers ++ [opsC12])
+/-- the C12 driver keeps its own registry-machine session beside the shared driver state -/
+partial def loopC12 (h : IO.FS.Stream) (out : IO.FS.Stream) (st : DriverState) (cs : C12State) : IO Unit := do
+  let line ← h.getLine
+  if line.isEmpty then return ()
+  let l := if line.back == '\n' then String.ofList line.toList.dropLast else line
+  let fields := l.splitOn "\t"
+  match stepC12 cs fields with
+  | some (cs', o) =>
+    out.putStrLn o
+    loopC12 h out st cs'
+  | none =>
+    let (st', o) := stepWith (baseHandlers ++ [opsC12]) st fields
+    out.putStrLn o
+    loopC12 h out st' cs
+
+def main : IO Unit := do
+  let stdin ← IO.getStdin
+  let stdout ← IO.getStdout
+  loopC12 stdin stdout {} {}
